@@ -320,8 +320,10 @@ class Ctx:
         ev = {"property_id": self.prop, "tier": self.tier, "seed": self.seed, "level": level, "coverage": cov,
               "assumptions": list(assumptions) + self.notes, "wall_s": round(time.time() - self.t0, 1),
               "violations": len(violations)}
-        os.makedirs(os.path.join(OUT, "evidence"), exist_ok=True)
-        with open(os.path.join(OUT, "evidence", self.prop + ".json"), "w") as f:
+        # extensions beyond the listed properties (ids X..) keep their evidence apart from the properties' evidence
+        evdir = "evidence" if not self.prop.startswith("X") else os.path.join("extras", "evidence")
+        os.makedirs(os.path.join(OUT, evdir), exist_ok=True)
+        with open(os.path.join(OUT, evdir, self.prop + ".json"), "w") as f:
             json.dump(ev, f, indent=1)
         log("%s tier=%s seed=%d: %d MC runs (%d states), %d traces / %d events validated, %d rejected (%d known), %.0fs" %
             (self.prop, self.tier, self.seed, len(self.mc), sum(m["distinct"] for m in self.mc), len(self.tv),
